@@ -264,7 +264,7 @@ pub fn run(args: &Args, rep: &mut Report) {
     }
     // 6. random names over a mixed alphabet (valid and invalid), incl. names that look like generated aliases
     let alphabet: Vec<char> = "aB1 .~_-+$%'@`!(){}^#&,;=[]*?:|<>\"\\\u{e9}\u{df}\u{4e2d}\u{fffd}\u{1}\u{7f}".chars().collect();
-    for _ in 0..if thorough { 60_000 } else { 6_000 } {
+    for _ in 0..if thorough { 1_000_000 } else { 6_000 } {
         let maxl = if rng.chance(1, 10) { 60 } else { 14 };
         let len = 1 + rng.usize_below(maxl);
         let s: String = (0..len).map(|_| alphabet[rng.usize_below(alphabet.len())]).filter(|c| *c != '/').collect();
